@@ -52,6 +52,13 @@ def main():
         meta["ran"].append("PYTHONPATH=<scratch repo with patch> /venv/bin/python demo.py -> rc %d; on the unchanged tree -> rc %d"
                            % (w.returncode, wo.returncode))
         print("demo with change rc=%d, without rc=%d" % (w.returncode, wo.returncode))
+        old = os.path.join(HERE, "seeded", sid, "meta.json")
+        if skip_suite and os.path.exists(old):
+            om = json.load(open(old))
+            if om.get("suite_with_change"):
+                meta["suite_with_change"] = om["suite_with_change"]
+                meta["ran"].append("pytest (repository suite, test_semi.py cannot be collected without rpy2) with the change: "
+                                   + om["suite_with_change"] + " (recorded by an earlier confirmation run)")
         if not skip_suite:
             t = run(["/venv/bin/python", "-m", "pytest", "-q", "-p", "no:cacheprovider", "--timeout=900",
                      "--continue-on-collection-errors", "--ignore=sempler/test/test_semi.py"], cwd=repo,
